@@ -2,7 +2,7 @@
 from pw_verif import ref
 from pw_verif.engine import PrepFailed
 from pw_verif.harness import Violation, case_hash
-from pw_verif.program import Inapplicable, Machine, Tagged
+from pw_verif.program import Inapplicable, Machine, Tagged, TooBig
 from pw_verif.snap import Malformed
 
 
@@ -24,6 +24,9 @@ def run_program_case(case, prop: str, focus_kinds=None):
         except Inapplicable as e:
             labels.append("skipped:" + str(e)[:30])
             continue
+        except TooBig:
+            labels.append("abandoned-too-big")
+            break
         except Tagged as t:
             if prop in t.props:
                 t.site.setdefault("step_index", min(i, 3))
